@@ -734,10 +734,17 @@ def obligations(tier, seed):
 
 
 EVIDENCE = {
-    "bounds": "enum serializers: full wire range; flag serializers: boundary/single-bit catalogue per wire type; object state: "
-              "256 x 5 contexts; payload serializers: payloads <= 4 bytes; dates: 6 instants",
-    "outside": "flag words other than the catalogue values; payloads longer than 4 bytes (most structured payloads need more, so "
-               "for them the obligation only covers the rejection path and tiny values); numpy bitmap adapter beyond what 4 "
-               "bytes reach; other process time zones",
-    "assumptions": ["int(F(x)) == x for x >= 0 is a CPython enum.Flag fact (spot-checked on the catalogue values)"],
+    "bounds": "enum serializers: full wire range of the variable; flag serializers: 0 / every single bit / all ones / type min and "
+              "max / -1, -2 for signed fields; object state: 256 raw values x 5 PCode contexts; xfer packet id: 11 boundary words; "
+              "dates: boundary catalogue (incl. DST edges, year 9999, float-hostile microsecond values) x 3 process time zones, and "
+              "one z3 query per date field over the whole wire range up to year 9999 (integer arithmetic, zone without DST); byte "
+              "payloads: ANY payload <= 2 bytes (1 byte where every byte value forks) and every single-byte substitution "
+              "(0x00/0x01/0x7f/0x80/0xff; any byte in thorough) of the accepted base payloads (fill patterns per sub-template "
+              "context + crafted texture entries / extra params / name-values)",
+    "outside": "flag words other than the catalogue values (bit operators realize their operands; C08 decides the generic "
+               "arithmetic); payloads that are neither tiny nor one byte away from a base payload; non-finite floats in the "
+               "plain-data literal check (the property speaks of finite numbers); time zones other than UTC / Los Angeles / London",
+    "assumptions": ["the C datetime type obeys its documented contract on (whole seconds, microseconds) in a zone without DST "
+                    "(used only by date_arith_z3__*; the catalogue obligation runs the real datetime)",
+                    "lazy_object_proxy replaced by a Python proxy with the same contract"],
 }
